@@ -231,3 +231,31 @@ def replay_msg_gate(m, fragment=False):
     ok = ship(y, b'the message', fragment)
     got = (len(rx.incoming_messages) - n0) + (len(rx.received_fragments) - f0)
     return ok, got, before
+
+
+# ------------------------------------------------------------------ a real handshake (no state is set by hand)
+def honest_handshake(clock, step=0.05):
+    """client object and server-side object taken through the real three-datagram handshake at clock, clock+step,
+    clock+2*step.  -> (client connection, server-side connection, ctxt, handler, connect callback recorder)"""
+    handler = Handler()
+    root = new_key('root')
+    ctxt = ctx_mod.ServerContext(handler, root)
+    cl = conn.ClientServerConnection(('srv', 9))
+    cl.clock = clock
+    cl.setServerPublicKey(root.getPublicKey())
+    cb = Rec('connect')
+    cl.connection_callback = cb
+    addr = ('cli', 7)
+    sv = conn.ServerClientConnection(ctxt, addr)
+    sv.clock = clock
+    ctxt.temp_connections[addr] = sv
+    cl._sendClientHello()
+    d1 = cl._encode_packet(cl._build_packet())
+    sv._recv_datagram(PacketHeader.from_bytes(True, d1), d1)
+    clock.advance(step)
+    d2 = sv._encode_packet(sv._build_packet())
+    cl._recv_datagram(PacketHeader.from_bytes(False, d2), d2)
+    clock.advance(step)
+    d3 = cl._encode_packet(cl._build_packet())
+    sv._recv_datagram(PacketHeader.from_bytes(True, d3), d3)
+    return cl, sv, ctxt, handler, cb
